@@ -624,3 +624,45 @@ def render(sv, depth=0):
     if k == 'fn':
         return 'fn:' + sv[1].split('::')[-1]
     return str(sv)
+
+
+# ------------------------------------------------------------------------------- path queries
+
+def path_truth(path, sv):
+    """truth value of boolean symbolic value `sv` implied by the literals of `path` (None if open)"""
+    if sv[0] == 'k':
+        return bool(sv[1])
+    for (lsv, lit, _fn, _bi) in path.lits:
+        if lsv == sv:
+            t = lit_truth(lit)
+            if t is not None:
+                return t
+    if sv[0] == 'un' and sv[1] == 'Not':
+        t = path_truth(path, sv[2])
+        return None if t is None else (not t)
+    for (lsv, lit, _fn, _bi) in path.lits:
+        if lsv[0] == 'un' and lsv[1] == 'Not' and lsv[2] == sv:
+            t = lit_truth(lit)
+            if t is not None:
+                return not t
+    return None
+
+
+def lit_variant(fx, path, sv_inner):
+    """for a literal on discr(x): the variant name chosen on this path (or None)"""
+    for (lsv, lit, _fn, _bi) in path.lits:
+        if lsv[0] == 'discr' and lsv[1] == sv_inner and lit[0] == 'eq':
+            return fx.variant_by_discr(lsv[2], lit[1])
+    return None
+
+
+def P(base, *path):
+    """shorthand for a field of parameter n: P(1, '.remaining')"""
+    b = ('sym', 'arg%d' % base) if isinstance(base, int) else base
+    return ('proj', b, tuple(path)) if path else b
+
+
+def stores_to(path, field_suffix):
+    """stores of a path whose location path ends with the given field names"""
+    fs = tuple(field_suffix)
+    return {k: v for k, v in path.stores.items() if k[1][-len(fs):] == fs}
